@@ -16,6 +16,8 @@ type TypeSpec struct {
 	Go   string `json:"go"`
 	Wire string `json:"wire"`
 	Decl string `json:"decl,omitempty"`
+	// Import: `alias "path"` of the package the type comes from (module-local packages written from Case.Extra)
+	Import string `json:"import,omitempty"`
 }
 
 // PluginSpec: a plugin with its EFFECTIVE prefix (after -prefix / -pluginprefix) and the argument
@@ -87,6 +89,7 @@ type Case struct {
 	OtherFile    string       `json:"other_file"`
 	Variants     []Variant    `json:"variants"`
 	KeepDerived  bool         `json:"keep_derived,omitempty"`
+	Extra        map[string]string `json:"extra,omitempty"` // further files of the module (path relative to the module root): imported packages
 	Group        string       `json:"group,omitempty"` // C12: cases of one group are renamings of each other
 	Rename       string       `json:"rename,omitempty"`
 }
@@ -209,6 +212,14 @@ func (c *Case) Sources() map[string]string {
 	for fi, f := range c.Files {
 		var sb strings.Builder
 		sb.WriteString("package p\n\n")
+		imps := map[string]bool{}
+		for _, call := range f.Calls {
+			if im := c.Types[call.Type].Import; im != "" && !imps[im] {
+				imps[im] = true
+				sb.WriteString("import " + im + "\n")
+			}
+		}
+		sb.WriteString("\n")
 		if fi == 0 {
 			seen := map[string]bool{}
 			for _, t := range c.Types {
